@@ -9,6 +9,17 @@ SP = "genjax._src.inference.sp"
 
 @task("rejuvenate.edit", props=["C27", "C04"], functions=[RJ + ":Rejuvenate.edit", GF + ":GenerativeFunction.propose"])
 def t_rejuvenate(E):
+    _rejuvenate(E, False)
+
+
+@task("rejuvenate.edit[structured argdiffs]", props=["C27"], functions=[RJ + ":Rejuvenate.edit", GF + ":GenerativeFunction.propose"])
+def t_rejuvenate_structured(E):
+    """the same with the argdiffs as a concrete tuple: a plain leaf tagged NoChange and a CONTAINER argument (a tuple) one of
+    whose leaves changed - the model's update must receive exactly these argdiffs"""
+    _rejuvenate(E, True)
+
+
+def _rejuvenate(E, structured):
     """weight == log p(x') - log p(x) + log q(x | argmap(x')) - log q(x' | argmap(x)); keys split"""
     z3, T = E.z3, E.I.T
     model, q = G(E, "model"), G(E, "proposal")
@@ -16,18 +27,29 @@ def t_rejuvenate(E):
     rj = E.new(RJ + ":Rejuvenate", proposal=q, argument_mapping=argmap)
     k = key(E)
     tr = T.abstract_trace("tr", g=model.t)
-    ad = E.opaque("argdiffs", "tuple")
-    E.assume(T.d_is_tree(ad.t))
-    new, w, rd, bwd = E.method(rj, "edit", k, tr, ad)
+    if structured:
+        ad_call = (diff(E, E.opaque("arg0"), NoChange(E)),
+                   (diff(E, E.opaque("arg1a"), UnknownChange(E)), diff(E, E.opaque("arg1b"), NoChange(E))))
+        ad = UVal(E.I.to_u(ad_call), "tuple")
+        # ... and the old trace's arguments as a concrete tuple of the same shape (code that pairs argdiffs with old arguments)
+        old_args = (E.opaque("old0"), (E.opaque("old1a"), E.opaque("old1b")))
+        E.assume(T.tr_args(tr.t) == E.I.to_u(old_args))
+        am = E.I.abstract_methods
+        plain_get_args = am[("Trace", "get_args")]
+        am[("Trace", "get_args")] = lambda I, s: old_args if s.t.eq(tr.t) else plain_get_args(I, s)
+    else:
+        ad = ad_call = E.opaque("argdiffs", "tuple")
+        E.assume(T.d_is_tree(ad.t))
+    new, w, rd, bwd = E.method(rj, "edit", k, tr, ad_call)
     from theory import keys as KY
     # the keys are read off the result: the model's edit and the proposal's simulate, whatever halves of whatever split they are
     nt = z3.simplify(E.I.to_u(new))
     k0 = KY.key_of(nt, "gf_edit_tr")
     E.require("C27.Rejuvenate.new_trace_is_an_edit_of_the_model_trace", k0 is not None)
     E.prove("C27.Rejuvenate.the_edit_is_the_model_s", nt.arg(0) == model.t)
-    found = []
+    found, seen = [], set()
 
-    def walk(e, seen=set()):
+    def walk(e):
         if e.get_id() in seen:
             return
         seen.add(e.get_id())
